@@ -4,7 +4,7 @@ import os
 import re
 from framework import REPO, ROOT
 
-TIE = ["Nsq.Tie.AdminGate"]
+TIE = ["Nsq.Tie.AdminGate", "Nsq.Tie.AdminFanout"]
 PROPS = ["Nsq.Props.C17"]
 STREAMS = [("gate_identity", "^TestVerifE7Identity$"), ("gate_fanout", "^TestVerifE7Fanout$"),
            ("gate_config", "^TestVerifE7Config$")]
@@ -178,7 +178,8 @@ def run(ctx):
     ctx.assumptions += [
         "an upstream stub either answers every request or fails every request (model AdminFanout.World)",
         "request-level fan-out (which URLs each ClusterInfo action sends) is a hand-written model tied by "
-        "correspondence only; the handler-level statements are over regenerated skeletons",
+        "correspondence and by a pinned fact table of the call/URI statements of data.go (Tie.AdminFanout); "
+        "the handler-level statements are over regenerated skeletons",
     ]
     ctx.rule = ("correspondence: every registered route x 16 identities (absent, empty, non-admin, admin, second admin, "
                 "case/prefix/suffix/whitespace/list look-alikes, lower-case header name, other header, two values) x "
@@ -187,6 +188,7 @@ def run(ctx):
                 "62+ client addresses; a case is distinct by its op line and non-trivial when it is a mutating or "
                 "/config request; oracle: property_fails_on evaluates C17 on the implementation's own answer")
     gen_ok, _ = ctx.gen("e7_admin")
+    ctx.gen("e7_fanout")
     ok, log = ctx.lean_build(TIE + PROPS)
     if not ok:
         ctx.lean_obligation_failed("lake build " + " ".join(TIE + PROPS), log[-1500:])
